@@ -22,6 +22,38 @@ type laRun struct {
 	Bounds  string
 	// PanicsAre: property to which kernel panics are attributed ("" = this property)
 	Explain string
+	e2eDone map[string][2]string
+}
+
+// e2e runs (once) the end-to-end scenario of a stub-dependent kernel.
+func (lr *laRun) e2e(name, dir string) (bool, string) {
+	if lr.e2eDone == nil {
+		lr.e2eDone = map[string][2]string{}
+	}
+	if r, ok := lr.e2eDone[name]; ok {
+		return r[0] == "1", r[1]
+	}
+	f := e2eScenarios[name]
+	rep, detail := false, "no scenario"
+	if f != nil {
+		bad, err := f(lr.Opt.Repo, dir)
+		switch {
+		case err != nil:
+			detail = "scenario failed to run: " + err.Error()
+		case len(bad) > 0:
+			rep = true
+			detail = strings.Join(bad, "\n")
+		default:
+			detail = "all expectations of scenario " + name + " hold for the real binary"
+		}
+		os.Remove(filepath.Join(dir, "goverter-bin"))
+	}
+	v := "0"
+	if rep {
+		v = "1"
+	}
+	lr.e2eDone[name] = [2]string{v, detail}
+	return rep, detail
 }
 
 type laResult struct {
@@ -97,6 +129,21 @@ func (lr *laRun) finish(res *laResult, extra map[string]interface{}) int {
 				}
 				dir := filepath.Join(replayBase, fmt.Sprintf("case%02d", ci))
 				ci++
+				if kr.Kernel.E2E != "" {
+					res.Session.WriteReplay(ce, dir)
+					rep, detail := lr.e2e(kr.Kernel.E2E, filepath.Join(dir, "e2e"))
+					os.WriteFile(filepath.Join(dir, "e2e.txt"), []byte(detail), 0o644)
+					validated++
+					if !rep {
+						fmt.Printf("UNCONFIRMED: kernel=%s assert=%s fails symbolically (%s) but the end-to-end scenario %s shows no deviation, see %s\n", kr.Kernel.Name, id, fmtVals(ce), kr.Kernel.E2E, dir)
+						unconfirmed++
+						continue
+					}
+					violations++
+					fmt.Printf("VIOLATION property=%s replay=%s\n", prop, dir)
+					fmt.Printf("  kernel=%s assertion=%s fails on %d paths (inputs: %s); end-to-end: %s\n", kr.Kernel.Name, id, st.Failed, fmtVals(ce), firstLine(detail))
+					continue
+				}
 				res.Session.WriteReplay(ce, dir)
 				ok, out := layera.RunReplay(dir)
 				os.WriteFile(filepath.Join(dir, "replay.out"), []byte(out), 0o644)
@@ -126,6 +173,22 @@ func (lr *laRun) finish(res *laResult, extra map[string]interface{}) int {
 			}
 			var dir string
 			ok := false
+			if kr.Kernel.E2E != "" {
+				dir = filepath.Join(replayBase, fmt.Sprintf("case%02d", ci))
+				ci++
+				res.Session.WriteReplay(ce, dir)
+				rep, detail := lr.e2e(kr.Kernel.E2E, filepath.Join(dir, "e2e"))
+				os.WriteFile(filepath.Join(dir, "e2e.txt"), []byte(detail), 0o644)
+				validated++
+				if rep {
+					violations++
+					fmt.Printf("VIOLATION property=%s replay=%s\n  kernel=%s panics (%s: %s); end-to-end: %s\n", prop, dir, kr.Kernel.Name, id, ce.Note, firstLine(detail))
+				} else {
+					fmt.Printf("UNCONFIRMED: kernel=%s panic %s (%s): end-to-end scenario shows no deviation, see %s\n", kr.Kernel.Name, id, ce.Note, dir)
+					unconfirmed++
+				}
+				continue
+			}
 			for _, ex := range st.Examples {
 				dir = filepath.Join(replayBase, fmt.Sprintf("case%02d", ci))
 				ci++
